@@ -47,10 +47,13 @@ struct VideoItem {
     with_dts: bool,
 }
 
-const CTS_K: [i32; 3] = [0, -2, 1];
-/// index 3 = an offset that does not fit the signed 32-bit field (the write must be rejected
+/// composition offsets in seconds: none, two frames early, one frame late, and one *film* frame
+/// late (3753.75 ticks: an offset that is not a whole number of ticks, so that rounding the
+/// difference and differencing the roundings disagree)
+const CTS_K: [f64; 4] = [0.0, -2.0 / 30.0, 1.0 / 30.0, 1001.0 / 24000.0];
+/// index 4 = an offset that does not fit the signed 32-bit field (the write must be rejected
 /// and leave the accepted samples' timing untouched)
-const CTS_OVERFLOW: usize = 3;
+const CTS_OVERFLOW: usize = 4;
 
 fn video_ops(it: &VideoItem, cts: &[usize]) -> Option<Vec<Op>> {
     let st = video_steps();
@@ -61,7 +64,7 @@ fn video_ops(it: &VideoItem, cts: &[usize]) -> Option<Vec<Op>> {
         if i > 0 {
             t += st[it.steps[i - 1]];
         }
-        let pts = if cts[i] == CTS_OVERFLOW { t + (2147483648.0 + 4500.0) / 90000.0 } else { t + CTS_K[cts[i]] as f64 / 30.0 };
+        let pts = if cts[i] == CTS_OVERFLOW { t + (2147483648.0 + 4500.0) / 90000.0 } else { t + CTS_K[cts[i]] };
         if !tick_is_robust(t) || (pts >= 0.0 && !tick_is_robust(pts)) {
             return None;
         }
@@ -213,7 +216,7 @@ pub fn check_c03(ctx: &Ctx) -> i32 {
         Meta {
             level: "model_checking",
             rule: format!(
-                "every video DTS sequence of <= {vmax} frames over the step alphabet {{1/30, 1001/30000, 1001/24000, 1 tick, 0.4 tick, 7.3 s, 2^31 ticks}} from starts {{0, 0.5, 36000 s}}, via write_video and via write_video_with_dts with every composition-offset vector over {{0, -2, +1}} frames, on H.264 and VP9 ({n_video_items} sequence items); every audio PTS sequence of <= {amax} frames over steps {{0, 1024/48000, 1024/44100, 0.02}} x start lead {{0, 0.01}} x {{AAC, Opus}} ({n_audio_items} items); rejected writes are kept in the history and the oracle is applied to the accepted subsequence; plus two long single traces ({long_n} video frames at 29.97/23.976 fps with {} AAC frames at 44.1 kHz) for the no-drift clause. Oracle: stts deltas = differences of exactly rounded absolute timestamps, last-sample rule, ctts presence/values, mdhd duration = sum, no drift at any sample. Distinct by (result vector, output bytes).",
+                "every video DTS sequence of <= {vmax} frames over the step alphabet {{1/30, 1001/30000, 1001/24000, 1 tick, 0.4 tick, 7.3 s, 2^31 ticks}} from starts {{0, 0.5, 36000 s}}, via write_video and via write_video_with_dts with every composition-offset vector over {{0, -2/30 s, +1/30 s, +1001/24000 s (off the tick grid)}} plus an overflowing offset at each single position, on H.264 and VP9 ({n_video_items} sequence items); every audio PTS sequence of <= {amax} frames over steps {{0, 1024/48000, 1024/44100, 0.02}} x start lead {{0, 0.01}} x {{AAC, Opus}} ({n_audio_items} items); rejected writes are kept in the history and the oracle is applied to the accepted subsequence; plus two long single traces ({long_n} video frames at 29.97/23.976 fps with {} AAC frames at 44.1 kHz) for the no-drift clause. Oracle: stts deltas = differences of exactly rounded absolute timestamps, last-sample rule, ctts presence/values, mdhd duration = sum, no drift at any sample. Distinct by (result vector, output bytes).",
                 2 * long_n
             ),
             bound: format!("video <= {vmax} frames, audio <= {amax} frames; long traces are single deterministic executions"),
